@@ -12,3 +12,4 @@ import AikenVerif.Props.C19
 import AikenVerif.Props.C13
 import AikenVerif.Props.C10
 import AikenVerif.Props.C04
+import AikenVerif.Props.C07
